@@ -22,4 +22,10 @@ def run(ctx, rep):
             rep.fail(sig, case, detail)
         else:
             other[prop] = other.get(prop, 0) + 1
+    from . import damage
+    for prop, sig, case, detail in damage.run_damage(ctx, rep):
+        if prop == "C05":
+            rep.fail(sig, case, detail)
+        else:
+            other[prop] = other.get(prop, 0) + 1
     rep.coverage_extra["failures_attributed_to_other_properties"] = other
